@@ -47,14 +47,15 @@ class Rigol_Dg4102(QMI_Instrument):
     @rpc_method
     def open(self) -> None:
         _logger.info("[%s] Opening connection to instrument", self._name)
-        super().open()
+        self._check_is_closed()
         self._transport.open()
+        super().open()
 
     @rpc_method
     def close(self) -> None:
         _logger.info("[%s] Closing connection to instrument", self._name)
-        self._transport.close()
         super().close()
+        self._transport.close()
 
     def _ask_float(self, cmd: str) -> float:
         """Send a query and return a floating point response.
